@@ -21,6 +21,56 @@ let string_of_res = function
   | Bool b -> "B " ^ string_of_bool b
   | Undefined -> "UNDEF"
 
+
+(* the definitions REGENERATED from lib/srfi/151/bitwise.scm (coq/Gen/C17_Bitwise.v), evaluated on the same arguments as the
+   real library: validates the translator.  Fuelled loops get far more fuel than any field width / length used. *)
+let fuel = nat_of_int 100000
+let z_is_zero = function Z0 -> true | _ -> false
+let vz z = "V " ^ hex_of_z z
+let vb b = "B " ^ string_of_bool b
+let vo = function Some z -> vz z | None -> "FUEL"
+let bools_of (l : z list) = List.map (fun x -> not (z_is_zero x)) l
+let string_of_bools l = "L " ^ String.concat "" (List.map (fun b -> if b then "1" else "0") l)
+let gen name (a : z list) : string =
+  match name, a with
+  | "bitwise-not", [i] -> vz (s_bitwise_not i)
+  | "bitwise-and", l -> vz (s_bitwise_and l)
+  | "bitwise-ior", l -> vz (s_bitwise_ior l)
+  | "bitwise-xor", l -> vz (s_bitwise_xor l)
+  | "bitwise-eqv", l -> vz (s_bitwise_eqv l)
+  | "bitwise-nand", l -> vz (s_bitwise_nand l)
+  | "bitwise-nor", l -> vz (s_bitwise_nor l)
+  | "bitwise-andc1", [i; j] -> vz (s_bitwise_andc1 i j)
+  | "bitwise-andc2", [i; j] -> vz (s_bitwise_andc2 i j)
+  | "bitwise-orc1", [i; j] -> vz (s_bitwise_orc1 i j)
+  | "bitwise-orc2", [i; j] -> vz (s_bitwise_orc2 i j)
+  | "any-bit-set?", [t; i] -> vb (s_any_bit_set_p t i)
+  | "every-bit-set?", [t; i] -> vb (s_every_bit_set_p t i)
+  | "first-set-bit", [i] -> vz (s_first_set_bit i)
+  | "bitwise-if", [m; i; j] -> vz (s_bitwise_if m i j)
+  | "bit-field", [n; s; e] -> vz (s_bit_field n s e)
+  | "bit-field-any?", [n; s; e] -> vb (s_bit_field_any_p n s e)
+  | "bit-field-every?", [n; s; e] -> vb (s_bit_field_every_p n s e)
+  | "bit-field-clear", [n; s; e] -> vz (s_bit_field_clear n s e)
+  | "bit-field-set", [n; s; e] -> vz (s_bit_field_set n s e)
+  | "bit-field-replace", [d; r; s; e] -> vz (s_bit_field_replace d r s e)
+  | "bit-field-replace-same", [d; r; s; e] -> vz (s_bit_field_replace_same d r s e)
+  | "bit-field-rotate", [n; c; s; e] -> vz (s_bit_field_rotate n c s e)
+  | "bit-field-reverse", [i; s; e] -> vo (s_bit_field_reverse fuel i s e)
+  | "copy-bit", [idx; i; b] -> vz (s_copy_bit idx i (not (z_is_zero b)))
+  | "bit-swap", [i1; i2; i] -> vz (s_bit_swap i1 i2 i)
+  | "bits->list", n :: o -> (match s_bits_to_list fuel n o with Some l -> string_of_bools l | None -> "FUEL")
+  | "bits->vector", n :: o -> (match s_bits_to_vector fuel n o with Some l -> string_of_bools l | None -> "FUEL")
+  | "list->bits", l -> vo (s_list_to_bits fuel (bools_of l))
+  | "vector->bits", l -> vo (s_vector_to_bits fuel (bools_of l))
+  | "bits", l -> vo (s_bits fuel (bools_of l))
+  | "bitwise-fold", [i] -> (match s_bitwise_fold fuel (fun b acc -> b :: acc) [] i with Some l -> string_of_bools l | None -> "FUEL")
+  | "generator", [i; k] ->
+      let rec go st n acc = if n = 0 then List.rev acc else
+        let (b, st') = s_make_bitwise_generator_step st in go st' (n - 1) (b :: acc) in
+      string_of_bools (go i (int_of_z k) [])
+  | _ -> "ERR unknown generated definition " ^ name
+
 let handle = function
   | ["and"; x; y] -> string_of_num (bit_and (num_of x) (num_of y))
   | ["ior"; x; y] -> string_of_num (bit_ior (num_of x) (num_of y))
@@ -32,6 +82,7 @@ let handle = function
   | ["bcw"; w] -> hex_of_z (bit_count_w (z_of_hex w))
   | ["ilog2"; w] -> hex_of_z (integer_log2 (z_of_hex w))
   | "spec" :: op :: args -> string_of_res (spec (nat_of_int (int_of_string op)) (List.map z_of_hex args))
+  | "gen" :: name :: args -> gen name (List.map z_of_hex args)
   | f -> "ERR unknown request " ^ String.concat " " f
 
 let () = serve handle
